@@ -340,6 +340,15 @@ func (u *storeUnderTest) apply(op sop) string {
 		for i := range argExp {
 			u.indexes[i] = true
 		}
+		// the argument lives on: whatever happens to it afterwards must not reach the receiver (the invariant
+		// that follows compares the receiver with its model)
+		if mn, mx, ok := argExp.MinMax(); ok {
+			arg.AddWithCount(mn, 3)
+			arg.Add(mx)
+			_ = arg.Reweight(2)
+		}
+		arg.Clear()
+		arg.Add(u.kindSafeIndex())
 		u.cl.label(fmt.Sprintf("merge:%s<-%s", u.kind.Name, op.Other.Kind.Name))
 		if len(am) == 0 {
 			u.cl.label("merge-empty-arg")
